@@ -694,10 +694,13 @@ def _walk_class(out, path, cls, depth):
             _walk(out, "%s.%s" % (path, attr), v, 0, frozenset())
 
 
-def snapshot():
+def snapshot(only=None):
+    """only: restrict the walk to these modules (used while shrinking a history for one changed path)"""
     out = {}
     mods = sorted(n for n in sys.modules if (n == "bip_utils" or n.startswith("bip_utils.")) and sys.modules[n] is not None)
     for mn in mods:
+        if only is not None and mn not in only:
+            continue
         out["<module>" + mn] = "loaded"
         for attr, v in list(vars(sys.modules[mn]).items()):
             if attr.startswith("__") and attr.endswith("__"):
@@ -730,7 +733,8 @@ def snapdiff(a, b):
 def handle(req):
     ops = req["ops"]
     out = {}
-    s0 = snapshot() if req.get("snap") else None
+    only = req.get("snapmods")
+    s0 = snapshot(only) if req.get("snap") else None
     nth = int(req.get("threads") or 0)
     if nth:
         old = sys.getswitchinterval()
@@ -758,9 +762,8 @@ def handle(req):
     else:
         out["res"] = [run_op(s) for s in ops]
     if s0 is not None:
-        out["diff"] = snapdiff(s0, snapshot())
-    if req.get("fullsnap"):
-        out["snapshot_size"] = len(s0 or snapshot())
+        out["diff"] = snapdiff(s0, snapshot(only))
+        out["snapshot_size"] = len(s0)
     return out
 
 
